@@ -862,6 +862,39 @@ func headerValue(val string) string {
 	return val
 }
 
+// unescapePathBytes appends src to dst with its percent-encoded bytes decoded. A path is not a query argument: a '+'
+// stays a '+', and an incomplete or invalid escape is kept as it is. dst and src may share storage (dst = src[:0]):
+// the write position never passes the read position.
+func unescapePathBytes(dst, src []byte) []byte {
+	for i := 0; i < len(src); i++ {
+		c := src[i]
+		if c == '%' && i+2 < len(src) {
+			hi, lo := unhexByte(src[i+1]), unhexByte(src[i+2])
+			if hi < 16 && lo < 16 {
+				dst = append(dst, hi<<4|lo)
+				i += 2
+				continue
+			}
+		}
+		dst = append(dst, c)
+	}
+	return dst
+}
+
+// unhexByte returns the value of a hexadecimal digit, 16 for any other byte.
+func unhexByte(c byte) byte {
+	switch {
+	case c >= '0' && c <= '9':
+		return c - '0'
+	case c >= 'a' && c <= 'f':
+		return c - 'a' + 10
+	case c >= 'A' && c <= 'F':
+		return c - 'A' + 10
+	default:
+		return 16
+	}
+}
+
 // containsCTL reports whether s contains a control byte other than a horizontal tab (CR and LF included).
 func containsCTL(s string) bool {
 	for i := 0; i < len(s); i++ {
